@@ -4,5 +4,5 @@ if [ -n "$(git -C /repo status --porcelain)" ]; then echo "refusing: /repo has u
 mut="$1"; prop="$2"; shift 2
 sh -c "$mut" || { git -C /repo checkout -- .; exit 2; }
 git -C /repo diff --stat | tail -1
-cd /verif && ./vcheck prop "$prop" "$@" 2>&1 | tail -4
+cd /verif && VERIF_OUT=/tmp/gvc-try-out ./vcheck prop "$prop" "$@" 2>&1 | tail -4
 git -C /repo checkout -- .
